@@ -28,19 +28,22 @@ type c14SC struct {
 }
 
 type c14Backend struct {
-	latency    time.Duration
-	jitter     time.Duration
-	mode       int // 0 ok, 1 always unacceptable, 2 acceptable error, 3 flaky
-	picks      int
-	dones      int
-	minLag     time.Duration
-	maxLag     time.Duration
-	busy       int // Done calls in progress
-	gen        int // Done calls started
-	lastDone   time.Duration
-	everDone   bool
-	lastPickAt time.Duration
-	maxGap     time.Duration
+	latency time.Duration
+	jitter  time.Duration
+	mode    int // 0 ok, 1 always unacceptable, 2 acceptable error, 3 flaky
+	// no acceptable completion has been started yet / the lowest score read after a completion until then
+	sawAcceptable      bool
+	lowestWhileFailing uint64
+	picks              int
+	dones              int
+	minLag             time.Duration
+	maxLag             time.Duration
+	busy               int // Done calls in progress
+	gen                int // Done calls started
+	lastDone           time.Duration
+	everDone           bool
+	lastPickAt         time.Duration
+	maxGap             time.Duration
 }
 
 func init() { logx.Disable() }
@@ -91,8 +94,10 @@ func (b *c14Backend) outcome(r *zsim.Run, o *zsim.Tape) (error, bool) {
 func c14Run(r *zsim.Run) {
 	timex.ZsimReset()
 	o := r.Ops
-	class := o.Intn(12) // mostly random concurrent histories; 10 health scenario; 11 starvation scenario
+	class := o.Intn(12) // mostly random concurrent histories; 9 contended failing backend; 10 health scenario; 11 starvation scenario
 	switch class {
+	case 9:
+		c14Contended(r)
 	case 10:
 		c14Health(r)
 	case 11:
@@ -150,6 +155,9 @@ func c14Cycle(r *zsim.Run, p *p2cPicker, ids map[balancer.SubConn]int, bes []*c1
 	}()
 	e, acceptable := b.outcome(r, o)
 	c := p.conns[id]
+	if acceptable {
+		b.sawAcceptable = true
+	}
 	exclusive := b.busy == 0
 	s0 := c.success
 	b.busy++
@@ -168,6 +176,17 @@ func c14Cycle(r *zsim.Run, p *p2cPicker, ids map[balancer.SubConn]int, bes []*c1
 	if s1 > initSuccess {
 		r.Failf("success-out-of-range", "connection %d: success score %d is outside [0,1000] after a completion (err=%v, before %d)", id, s1, e, s0)
 		return false
+	}
+	if !b.sawAcceptable {
+		// every completion of this connection so far was unacceptable: each one can only lower the score, so no
+		// reading may lie above an earlier one - whatever the interleaving of concurrent completions
+		if b.dones > 1 && s1 > b.lowestWhileFailing {
+			r.Failf("failed-completions-raise-score", "connection %d: all of its %d completions were unacceptable, yet its success score is %d after one of them where it had been %d before", id, b.dones, s1, b.lowestWhileFailing)
+			return false
+		}
+		if b.dones == 1 || s1 < b.lowestWhileFailing {
+			b.lowestWhileFailing = s1
+		}
 	}
 	if exclusive && b.busy == 0 {
 		// one unit of slack: the score is a float64 EWMA truncated to an integer
@@ -192,7 +211,9 @@ func c14Cycle(r *zsim.Run, p *p2cPicker, ids map[balancer.SubConn]int, bes []*c1
 		b.maxLag = el
 	}
 	// the estimate is a float64 EWMA truncated to integer nanoseconds: allow that rounding
-	if lag+time.Microsecond < b.minLag || lag > b.maxLag+time.Microsecond {
+	// (with stalled tasks a concurrent completion may have published a latency that includes its stall while it
+	// has not yet come round to telling this harness: the upper bound is then checked on undisturbed completions only)
+	if lag+time.Microsecond < b.minLag || lag > b.maxLag+time.Microsecond && (r.StallOdds == 0 || exclusive && b.busy == 0) {
 		r.Failf("lag-out-of-range", "connection %d: latency estimate %v is outside the observed latencies [%v, %v]", id, lag, b.minLag, b.maxLag)
 		return false
 	}
@@ -245,6 +266,48 @@ func c14Random(r *zsim.Run) {
 				}
 				gap := zsim.Pick(o, time.Duration(0), time.Millisecond, 10*time.Millisecond, 100*time.Millisecond, time.Second, 5*time.Second, 30*time.Second)
 				if gap > 0 {
+					zsim.Sleep(gap)
+				}
+			}
+		})
+	}
+	if !r.WaitFor(3*time.Hour, time.Second, func() bool { return doneCnt == callers }) {
+		r.Failf("callers-stuck", "callers did not finish: %v", r.Alive(false))
+		return
+	}
+	if r.Failed() {
+		return
+	}
+	c14Inflight(r, p, bes)
+}
+
+// c14Contended: one or two backends that always fail, four callers completing calls on them within milliseconds of
+// each other, tasks held at scheduling points for up to 40ms: a completion's update of the score interleaves with
+// others'. Every completion is unacceptable, so the score must never be read higher than before.
+func c14Contended(r *zsim.Run) {
+	o := r.Ops
+	n := 1 + o.Intn(2)
+	p, ids := c14Build(r, n)
+	bes := make([]*c14Backend, n)
+	for i := range bes {
+		bes[i] = &c14Backend{latency: zsim.Pick(o, time.Duration(0), time.Millisecond, 10*time.Millisecond), mode: 1}
+	}
+	r.StallOdds = zsim.Pick(o, 5, 10)
+	r.StallUnit = time.Millisecond
+	callers := 4
+	r.Logf("contended n=%d stalls=%d backends=%v", n, r.StallOdds, c14Desc(bes))
+	r.NonTrivial()
+	doneCnt := 0
+	for c := 0; c < callers; c++ {
+		who := fmt.Sprintf("caller%d", c)
+		steps := 10 + o.Intn(20)
+		r.Go(who, func() {
+			defer func() { doneCnt++ }()
+			for s := 0; s < steps && !r.Failed(); s++ {
+				if !c14Cycle(r, p, ids, bes, o, who) {
+					return
+				}
+				if gap := zsim.Pick(o, time.Duration(0), 0, time.Millisecond, 5*time.Millisecond); gap > 0 {
 					zsim.Sleep(gap)
 				}
 			}
